@@ -21,7 +21,7 @@ Record formats (TAB separated):
   F <function> <nargs> <guards> <id> <nout>                  global function overload
   G <class> <property> <id> <assignsThis 0|1>                get.<property>
   T <class> <property> <id>                                  set.<property>
-<guards> is `-` or `i:type,i:type,...` (1-based varargin index, MATLAB class name).
+<guards> is `-` or `i:type,...,i#d=n,...` (1-based varargin index; MATLAB class name, or size(varargin{i},d)==n).
 """
 import os
 import re
@@ -33,8 +33,7 @@ SIZE_RE = re.compile(r"size\(varargin\{(\d+)\},(\d)\)==(\d+)")
 
 def guards_of(cond):
     g = ['%s:%s' % (i, t) for i, t in GUARD_RE.findall(cond)]
-    if SIZE_RE.search(cond):
-        raise ValueError('size() guards are outside the C11 universe: ' + cond)
+    g += ['%s#%s=%s' % (i, d, n) for i, d, n in SIZE_RE.findall(cond)]     # size(varargin{i},d)==n
     return ','.join(g) if g else '-'
 
 
